@@ -15,10 +15,12 @@ def gen_script(rng, maxlen=7, cancel=False):
     par = rng.choice([1, 2, 2, 3, 4, 8])
     n = rng.randrange(0, maxlen + 1)
     xs = rng.sample(range(1, 40), n)
-    mode = rng.choice(["pure", "try"]) if st in ("Map", "FMap") else "pure"
+    mode = rng.choice(["pure", "try", "lift"]) if st in ("Map", "FMap") else "pure"
     if st == "FMap" and mode == "pure":
         mode = "lift"
-    fail = [x for x in xs if rng.random() < 0.3] if mode == "try" else []
+    # Lift with several workers: only the no-leak / no-panic / sub-multiset guarantees are claimed (C09 says nothing
+    # about which results a fail-fast fork stage delivers)
+    fail = [x for x in xs if rng.random() < (0.3 if mode == "try" else 0.5)] if mode in ("try", "lift") and rng.random() < 0.8 else []
     gated = st in HASFN and rng.random() < 0.8
     cfg = "stage=%s pkg=fork par=%d cap=%d fn=%d mode=%s fail=%s gated=%d" % (st, par, rng.choice([0, 1, 2]), rng.choice([2, 3]), mode, ",".join(map(str, fail)), 1 if gated else 0)
     outs = OUTS[st]
@@ -51,12 +53,18 @@ def evaluate(script, tr):
     vs = []
     done = all(k in tr.closed for k in OUTS[st])
     cancelled = tr.cancel_at is not None
+    liftfail = cfg["mode"] == "lift" and any(x in set(int(y) for y in cfg.get("fail", "").split(",") if y) for x in xs)
+    if liftfail:
+        # fail-fast with failures: treat like a cancelled run (sub-multiset, closure and no-leak checks only)
+        cancelled_for_results = True
+    else:
+        cancelled_for_results = cancelled
     for k in OUTS[st]:
         got = tr.values(k)
         w = want.get(k, [])
         if st in ("ForEach", "Void"):
             got, w = [], []
-        if done and not cancelled:
+        if done and not cancelled_for_results:
             if sorted(got) != sorted(w):
                 vs.append(vlib.Violation("impl", "fork.%s par=%s: output %d delivered %s, the sequential stage delivers the multiset %s" % (st, cfg["par"], k, sorted(got), sorted(w)),
                                          case=script, expected=sorted(w), got=sorted(got), key=key))
@@ -70,10 +78,10 @@ def evaluate(script, tr):
                     break
     if st in ("Map", "FMap"):
         errs = tr.errors(1)
-        if done and not cancelled and sorted(errs) != sorted(x for x in xs if x in fail):
+        if done and not cancelled_for_results and sorted(errs) != sorted(x for x in xs if x in fail):
             vs.append(vlib.Violation("impl", "fork.%s try: errors %s, failing elements %s" % (st, sorted(errs), sorted(x for x in xs if x in fail)), case=script, key=key))
     if tr.applied is not None and st in HASFN:
-        if done and not cancelled and tr.applied != sorted(xs):
+        if done and not cancelled_for_results and tr.applied != sorted(xs):
             vs.append(vlib.Violation("impl", "fork.%s: user function applied to %s, input was %s (each element exactly once)" % (st, tr.applied, sorted(xs)), case=script,
                                      expected=sorted(xs), got=tr.applied, key=key))
         elif len(set(tr.applied)) != len(tr.applied) or any(a not in xs for a in tr.applied):
@@ -86,7 +94,7 @@ def evaluate(script, tr):
             nclosed_in = True
         if mv[0] == "g" and res == "ok":
             released.add(int(mv[1:]))
-        if mv[0] == "r" and res == "closed" and not cancelled:
+        if mv[0] == "r" and res == "closed" and not cancelled_for_results:
             if not nclosed_in:
                 vs.append(vlib.Violation("impl", "fork.%s: output closed while the input was still open" % st, case=script, key=key))
                 break
@@ -100,82 +108,6 @@ def evaluate(script, tr):
         elif nclosed_in and done and n != 0:
             vs.append(vlib.Violation("impl", "fork.%s: %d goroutine(s) alive after close and drain" % (st, n), case=script, key=dict(key, **{"class": "leak"})))
     return vs
-
-
-STRESS = r'''
-package lockstep
-
-import (
-	"context"
-	"os"
-	"runtime"
-	"sort"
-	"sync/atomic"
-	"testing"
-
-	"github.com/fogfish/golem/pipe/v2"
-	"github.com/fogfish/golem/pipe/v2/fork"
-)
-
-// free-running stress (no synctest): schedule-independent facts only
-func TestStress(t *testing.T) {
-	if os.Getenv("STRESS") == "" {
-		t.Skip()
-	}
-	for _, procs := range []int{1, 2, 16} {
-		runtime.GOMAXPROCS(procs)
-		for par := 1; par <= 8; par *= 2 {
-			for rep := 0; rep < 30; rep++ {
-				ctx, cancel := context.WithCancel(context.Background())
-				n := 50 + rep
-				xs := make([]int, n)
-				for i := range xs {
-					xs[i] = i + 1
-				}
-				var calls int64
-				out, exx := fork.Map(ctx, par, pipe.Seq(xs...), fork.Try(func(x int) (int, error) {
-					atomic.AddInt64(&calls, 1)
-					runtime.Gosched()
-					return 3*x + 1, nil
-				}))
-				got := pipe.ToSeq(fork.StdErr(out, exx))
-				sort.Ints(got)
-				if len(got) != n || int(calls) != n {
-					t.Fatalf("procs=%d par=%d: %d results, %d calls for %d inputs", procs, par, len(got), calls, n)
-				}
-				for i, v := range got {
-					if v != 3*(i+1)+1 {
-						t.Fatalf("procs=%d par=%d: result multiset differs at %d: %d", procs, par, i, v)
-					}
-				}
-				l, r := fork.Partition(ctx, par, pipe.Seq(xs...), fork.Pure(func(x int) bool { return x%2 == 0 }))
-				dl := pipe.ForEach(ctx, l, pipe.Pure(func(x int) int { return x }))
-				gr := pipe.ToSeq(r)
-				<-dl
-				if len(gr) != (n+1)/2 {
-					t.Fatalf("partition lost elements: %d", len(gr))
-				}
-				cancel()
-			}
-		}
-	}
-}
-'''
-
-
-def stress(ctx):
-    """race detector + GOMAXPROCS 1/2/16 — supporting evidence for the part a model cannot express"""
-    rep = {"github.com/fogfish/golem/pipe/v2": vlib.REPO + "/pipe", "github.com/fogfish/golem/pure": vlib.REPO + "/pure"}
-    binp, err = ctx.harness("lockstep", rep, test=True, race=True, extra_files={"stress_test.go": STRESS})
-    if binp is None:
-        ctx.cov["race_stress"] = "race build unavailable: " + (err or "")[-300:]
-        return
-    p = subprocess.run([binp, "-test.run", "TestStress", "-test.count=1"], env=dict(os.environ, STRESS="1"), capture_output=True, text=True, timeout=900)
-    ctx.cov["race_stress"] = "ok" if p.returncode == 0 else "FAILED"
-    if p.returncode != 0:
-        txt = (p.stdout + p.stderr)[-3000:]
-        ctx.violations.append(vlib.Violation("impl", "fork stress run failed: " + ("DATA RACE" if "DATA RACE" in txt else "wrong result"), case="TestStress (free-running, -race)",
-                                             got=txt, key={"class": "stress"}))
 
 
 def run(ctx):
@@ -197,4 +129,4 @@ def run(ctx):
             ctx.hist("gated", tr.cfg["gated"])
             ctx.count(s, nontrivial=int(tr.cfg["par"]) >= 2 and len(tr.sent.get(0, [])) >= 2)
     if ctx.thorough() and not ctx.replay:
-        stress(ctx)
+        ls.stress(ctx, ["forkmap"], 10, {"pkg": "fork"})
